@@ -59,9 +59,13 @@ def make_name(rng, shape, ext):
         return head + f'{p}_{struct}.{ext}', exp_info
     while True:
         t = token(rng, 2, 10)
-        if rng.random() < 0.2:
+        r = rng.random()
+        if r < 0.2:
             t = t + '-' + token(rng, 2, 4) + 'zq'      # hyphenated, second half is no pet name
-        if '-' not in t or t.split('-')[1] not in petnames():
+        elif r < 0.35:
+            # three hyphenated parts with a pet name in the middle: still a task, pet names have two
+            t = t + '-' + rng.choice(petnames()) + '-' + token(rng, 1, 3)
+        if '-' not in t or t.split('-')[1] not in petnames() or len(t.split('-')) != 2:
             break
     exp_info.update(participant_scope='multiple', task_scope='single', participant=None,
                     task_index=None, task_name=t)
@@ -74,7 +78,9 @@ BAD_NAMES = ['Meadows_x_1D.mat', 'Meadows_exp_v_v1_a_1D', 'Meadows_exp_v_v1_a_1D
              'a_b_c_d.e', '/some/dir.d/Meadows_exp_v_v2_able-fox_7_2D.mat']
 
 
-def stimuli(rng, n):
+def stimuli(rng, n, ext_mode='ext'):
+    """n distinct stimulus names; ext_mode 'ext': file names with an extension (what Meadows
+    stores for uploaded files), 'none': bare names of different lengths (text stimuli), 'mixed'"""
     out = set()
     while len(out) < n:
         s = token(rng, 1, 6)
@@ -83,30 +89,34 @@ def stimuli(rng, n):
         out.add(s)
     out = list(out)
     rng.shuffle(out)
-    return [s + '.' + rng.choice(STIMEXT) for s in out]
+    if ext_mode == 'none' and len({len(s) for s in out}) == 1:
+        out[0] = out[0] + 'xx'                      # make sure some row gets padded
+    return [s if ext_mode == 'none' or (ext_mode == 'mixed' and i % 2 == 0)
+            else s + '.' + rng.choice(STIMEXT) for i, s in enumerate(out)]
 
 
 def utv(rng, n):
     return [rat(F(rng.randint(0, 200), 64)) for _ in range(n * (n - 1) // 2)]
 
 
-def load_case(rng, form, sort, n, n_part=None, skip=None, mismatch=None):
+def load_case(rng, form, sort, n, n_part=None, skip=None, mismatch=None, ext_mode='ext'):
     """one supported Meadows file: 'mat1' single participant .mat, 'matN' multi participant .mat,
     'json' single participant multi task .json; skip / mismatch force an info task / a
     multi-arrangement task with other stimuli into the json"""
     if form == 'mat1':
         name, info = make_name(rng, 'A', 'mat')
-        stim = stimuli(rng, n)
+        stim = stimuli(rng, n, ext_mode)
         u = utv(rng, n)
         vars_ = [['stimuli', {'strs': stim}], ['rdmutv', {'nums': [u]}]]
         rng.shuffle(vars_)
         return {'kind': 'meadows_load', 'fname': name, 'vars': vars_, 'sort': sort, 'form': 'mat1',
+                'ext_mode': ext_mode,
                 'expect': {'experiment': info['experiment_name'], 'stimuli': stim,
                            'rows': [{'participant': info['participant'], 'task': None,
                                      'task_index': info['task_index'], 'utv': u}]}}
     if form == 'matN':
         name, info = make_name(rng, 'C', 'mat')
-        stim = stimuli(rng, n)
+        stim = stimuli(rng, n, ext_mode)
         ps = []
         want = n_part or rng.randint(1, 4)
         while len(ps) < want:
@@ -120,9 +130,10 @@ def load_case(rng, form, sort, n, n_part=None, skip=None, mismatch=None):
         rng.shuffle(uvars)
         vars_ = uvars[:1] + svars + uvars[1:]
         return {'kind': 'meadows_load', 'fname': name, 'vars': vars_, 'sort': sort, 'form': 'matN',
+                'ext_mode': ext_mode,
                 'expect': {'experiment': info['experiment_name'], 'stimuli': stim, 'rows': rows}}
     name, info = make_name(rng, 'B', 'json')
-    stim = stimuli(rng, n)
+    stim = stimuli(rng, n, ext_mode)
     if rng.random() < 0.3:
         stim[0] = 'é' + stim[0]
     tasks, rows = [], []
@@ -157,6 +168,7 @@ def load_case(rng, form, sort, n, n_part=None, skip=None, mismatch=None):
         rows.append({'participant': info['participant'], 'task': 'ma',
                      'task_index': len(tasks) - 1, 'utv': u})
     return {'kind': 'meadows_load', 'fname': name, 'tasks': tasks, 'sort': sort, 'form': 'json',
+            'ext_mode': ext_mode,
             'expect': {'experiment': info['experiment_name'], 'stimuli': stim, 'rows': rows}}
 
 
@@ -176,12 +188,17 @@ def gen(rng, tier):
                               ('matN', True, 4, {'n_part': 3}), ('matN', False, 2, {'n_part': 2}),
                               ('matN', True, 2, {'n_part': 1}),
                               ('json', True, 3, {'skip': True, 'mismatch': True}),
-                              ('json', False, 2, {'skip': False, 'mismatch': False})):
+                              ('json', False, 2, {'skip': False, 'mismatch': False}),
+                              # stimulus names without extension: blank-padded by loadmat
+                              ('mat1', True, 4, {'ext_mode': 'none'}),
+                              ('matN', True, 3, {'n_part': 2, 'ext_mode': 'mixed'}),
+                              ('json', True, 3, {'ext_mode': 'none'})):
         yield load_case(rng, form, sort, n, **kw)
     for _ in range(14 * k):
         r = rng.random()
         yield load_case(rng, 'mat1' if r < 0.3 else 'matN' if r < 0.65 else 'json',
-                        rng.random() < 0.6, rng.randint(2, 6))
+                        rng.random() < 0.6, rng.randint(2, 6),
+                        ext_mode=rng.choice(['ext', 'ext', 'ext', 'none', 'mixed']))
     # --- rejected combinations
     for shape, ext, form in (('B', 'mat', 'rej_mat_multitask'), ('A', 'json', 'rej_json_single'),
                              ('C', 'json', 'rej_json_multi'), ('A', 'csv', 'rej_type')):
@@ -290,6 +307,11 @@ def oracle(case):
         return {'what': 'experiment name differs from the file name', 'observed': out['experiment_name'],
                 'expected': exp['experiment'], 'features': feats}
     want_conds = sorted(stems) if case['sort'] else stems
+    if case.get('ext_mode', 'ext') != 'ext' and case['form'] in ('mat1', 'matN'):
+        # a MATLAB char matrix pads its rows with blanks; for a name without extension the padding
+        # stays in the label (modelled: `stem_padded`); the values must still belong to the names
+        feats['padded_labels'] = any(c != c.rstrip(' ') for c in out['conds'])
+        out = dict(out, conds=[c.rstrip(' ') for c in out['conds']])
     if out['conds'] != want_conds:
         return {'what': 'stimulus labels differ from the file (or are not sorted on request)',
                 'observed': out['conds'], 'expected': want_conds, 'features': feats}
@@ -338,6 +360,8 @@ def feats(case, impl_res):
         n = len(case['expect']['stimuli'])
         if n == 2:
             b.append('load:two_stimuli')
+        if case.get('ext_mode', 'ext') != 'ext':
+            b.append('load:noext_json' if case['form'] == 'json' else 'load:noext_mat')
         if case['form'] == 'json':
             if any(t['task_type'] != 'multiarrange' for t in case['tasks']):
                 b.append('load:json_skip')
@@ -354,4 +378,4 @@ BRANCHES = ['meadows:A', 'meadows:B', 'meadows:C', 'meadows:bad', 'load:mat1', '
             'load:json', 'load:sort', 'load:nosort', 'load:rej_mat_multitask',
             'load:rej_json_single', 'load:rej_json_multi', 'load:rej_type',
             'load:rej_missing_var', 'load:rej_json_structure', 'load:two_stimuli',
-            'load:json_skip', 'load:json_mismatch']
+            'load:json_skip', 'load:json_mismatch', 'load:noext_mat', 'load:noext_json']
